@@ -14,6 +14,7 @@ from fractions import Fraction
 
 from . import c08_docs as docs
 from . import c08_codec as codec
+from . import c08_classes as classes
 from .common import Spec, Driver, GEN, write_if_changed
 
 # ---------------------------------------------------------------------------------------------
@@ -326,7 +327,32 @@ class C08(Spec):
                   "divergence_roundtrip", "zoneExclusion_roundtrip")) + tuple(
         "Earverif.XmlBlocks." + t
         for t in ("objectsRows_eq", "objectsProps_eq", "objPs_keys", "objPs_fields", "xpath_position",
-                  "objectsBlock_roundtrip"))
+                  "objectsBlock_roundtrip",
+                  # round 4: generic handler shapes, nested classes, the other block formats
+                  "xpath_own", "run_single", "run_list", "run_xpath", "run_gain'", "run_frequency",
+                  "loudness_roundtrip", "screen_roundtrip", "interaction_roundtrip", "avs_roundtrip",
+                  "gainAttribute_roundtrip'", "coeff_roundtrip", "matrix_read", "binauralBlock_roundtrip",
+                  "hoaBlock_roundtrip", "directSpeakersBlock_roundtrip", "matrixBlock_roundtrip", "objects_ofObj",
+                  "ds_ofObj", "hoa_ofObj", "binaural_ofObj", "matrix_ofObj", "coeff_ofObj", "avs_ofObj",
+                  "interaction_ofObj", "screen_ofObj", "loudness_ofObj")) + tuple(
+        "Earverif.XmlCustom." + t
+        for t in ("positionOffset_roundtrip", "positionOffset_zero_excluded", "centrePosition_roundtrip",
+                  "centrePosition_out_of_range", "screenWidth_roundtrip", "screen_kind_mismatch", "gainRange_roundtrip",
+                  "gainRange_empty_excluded", "posRange_roundtrip", "posRange_empty_excluded", "dumpIRange_steps")) + tuple(
+        "Earverif.XmlElements." + t
+        for t in ("packFormat_roundtrip", "streamFormat_roundtrip", "trackFormat_roundtrip", "trackUID_roundtrip",
+                  "content_roundtrip", "programme_roundtrip", "object_roundtrip", "parseBlock_roundtrip",
+                  "channelFormat_roundtrip",
+                  # regenerated-table obligations (decide +kernel) and the link to the concrete parsers
+                  "dsRows_eq", "hoaRows_eq", "binauralRows_eq", "matrixRows_eq", "objectsXRows_eq", "coeffRows_eq",
+                  "loudnessRows_eq", "interactionRows_eq", "avsRows_eq", "programmeRows_eq", "contentRows_eq",
+                  "objectRows_eq", "packRows_eq", "channelRows_eq", "streamRows_eq", "trackRows_eq", "trackUIDRows_eq",
+                  "screenRows_eq",
+                  "dsProps_eq", "hoaProps_eq", "binauralProps_eq", "matrixProps_eq", "objectsXProps_eq", "coeffProps_eq",
+                  "loudnessProps_eq", "interactionProps_eq", "avsProps_eq", "programmeProps_eq", "contentProps_eq",
+                  "objectProps_eq", "packProps_eq", "channelProps_eq", "streamProps_eq", "trackProps_eq",
+                  "trackUIDProps_eq", "screenProps_eq")) + (
+        "Earverif.C08.C08_roundtrip_model", "Earverif.C08.C08_nested_roundtrip")
     trusted_base = (
         "models Earverif/Model/TimeFormat.lean, GenIds.lean, Chna.lean are hand transliterations of "
         "time_format.parse_time/unparse_time, generate_ids.generate_ids, AudioID.asByteArray and the row decoding in "
@@ -334,15 +360,22 @@ class C08(Spec):
         "models Earverif/Model/XmlCodec.lean (Attribute, AttrElement, ListElement, HandleText, TypeAttribute, "
         "ElementParser.__init__/parse/to_xml over an abstract XML tree with (namespace, local name) tags), "
         "XmlLeaf.lean (StringType/RefType/TrackUIDRefType/BoolType/IntType/TimeType/TimeTypeV1/FloatType-on-the-1e-5-"
-        "grid/TypeAttribute enum codecs; table row -> model property) and XmlCustom.lean (handle_frequency, "
-        "handle_jump_position, parse_speaker_position and their to_xml) are hand transliterations of xml.py, tied by "
-        "the combinator / handler correspondence on every run; the extractor of the property tables "
-        "(harness/c08.py parser_rows) is trusted",
-        "NOT modelled (parameters of the theorems, searched only): the remaining hand-written CustomElement / "
-        "GenericElement handlers (listed by name in the evidence notes), '{:.5f}' printing of arbitrary doubles and "
-        "float()/int()/Fraction() on spellings other than the ones the writer produces, lxml parsing/serialisation, "
-        "namespaces-by-namespace visiting order of xpath(), reference resolution in adm.py, chna.py "
-        "populate_chna_chunk/load_chna_chunk",
+        "grid/TypeAttribute enum codecs; table row -> model property), XmlCustom.lean (every hand-written handler "
+        "pair of xml.py: frequency, jumpPosition, DirectSpeakers / Objects position, gain element / attribute, "
+        "channelLock, objectDivergence, zoneExclusion, positionOffset, screenCentrePosition / screenWidth, "
+        "gain / position interaction ranges), XmlBlocks.lean (as_handler / as_list_handler / matrix / block-format "
+        "dispatch closures, the nested element classes and their constructors) and XmlElements.lean (the eight main "
+        "elements, both versions; implX: handler chosen by the name recorded in the table row) are hand "
+        "transliterations of xml.py and elements/*.py, tied by the combinator / handler / class-level correspondence "
+        "on every run; the extractor of the property tables (harness/c08.py parser_rows) is trusted; "
+        "Proofs/C08Frozen.lean is a frozen copy of the tables compared with the regenerated ones by decide +kernel",
+        "NOT modelled (outside every theorem, searched only): '{:.5f}' printing of arbitrary doubles and "
+        "float()/int()/Fraction() on spellings other than the ones the writer produces (values are integers on the "
+        "1e-5 grid; a gain read with gainUnit=dB is kept symbolic and not written), lxml parsing/serialisation and "
+        "namespace prefixes (the tree is abstract, no byte level), reference resolution and duplicate-id rejection in "
+        "adm.py (references are id strings), AudioStreamFormatWrapper bookkeeping, attrs validators other than the "
+        "ones stated (position / PolarPosition ranges, screen class vs centre position), chna.py "
+        "populate_chna_chunk/load_chna_chunk, _set_default_rtimes / _sort_block_formats",
     )
     assumptions = (
         "times: 0 <= t < 100 h (hours are printed with a minimum of two digits, the parser accepts at most two); "
@@ -358,14 +391,26 @@ class C08(Spec):
         "CHNA strings are 7-bit",
         "combinator model: handler keys pairwise distinct (checked on the extracted tables by handlers_wellformed); "
         "integer strings are optionally signed ASCII digit strings, floats are printed with exactly five decimals; "
-        "hand-written handlers must leave the declarative arguments alone and succeed on their own output "
-        "(FrameOK, a hypothesis); DirectSpeakers screenEdgeLock values valid for their coordinate; jumpPosition "
-        "round-trips only with the flag set or without interpolationLength (jumpPosition_excluded)",
+        "DirectSpeakers / Objects screenEdgeLock values valid for their coordinate; Objects polar position and a "
+        "polar screenCentrePosition inside the ranges PolarPosition accepts; jumpPosition round-trips only with the "
+        "flag set or without interpolationLength (jumpPosition_excluded)",
+        "class-level theorems (explicit Valid predicates): time attributes in the domain of the version's time codec; "
+        "positionOffset not all-zero, interaction ranges with at least one bound and gains on the grid, "
+        "referenceScreen not None (excluded points: nothing is written, the value comes back as None / the default "
+        "screen); audioChannelFormat with at least one block format, every block of the class of the channel's type; "
+        "a Matrix coefficient has an inputChannelFormat (to_xml raises otherwise); audioTrackUID references never carry "
+        "the reserved id ATU_00000000; BS.2076-1 elements do not use BS.2076-2 features (block gain / importance outside "
+        "Objects, audioObject gain / mute / positionOffset / alternativeValueSets, alternativeValueSetIDRef, "
+        "audioTrackUID audioChannelFormatIDRef: to_xml raises) — each of these points is run on the real code and "
+        "recorded in the evidence (excluded-point:*), never asserted",
     )
     rule = (
         "leaf correspondence: generated time strings (valid shapes + near-misses), times (decimal/fractional/"
         "non-terminating/over-precision/negative), element-count vectors around every hex-width boundary, CHNA rows "
-        "(well-formed, wrong lengths, raw bytes) — real code vs Lean driver, exact comparison; search: seeded random "
+        "(well-formed, wrong lengths, raw bytes), values and synthetic trees for every hand-written handler pair, and "
+        "class level: every element of generated documents and randomly edited copies of its tree through the real "
+        "parse + constructor + to_xml of its class vs the model's concrete parser — real code vs Lean driver, exact "
+        "comparison (dB gains up to rounding); search: seeded random "
         "documents over all element classes for BS.2076-1 and -2, one case = one document through the real "
         "write/read pipeline; distinct by (kind, doc seed, version, size)"
     )
@@ -376,8 +421,19 @@ class C08(Spec):
         ctx.count("extract:element-parsers", nparsers)
         ctx.count("extract:handler-property-rows", nrows)
 
+    def _hit_capped(self, ctx, what, inp, detail, tags, cap=3):
+        """report at most `cap` failing inputs per tag from the handler / element streams (the rest is counted), so
+        that the failing documents of the search are part of the replay file as well"""
+        seen = self.__dict__.setdefault("_hits_by_tag", {})
+        seen[tags[0]] = seen.get(tags[0], 0) + 1
+        if seen[tags[0]] <= cap:
+            ctx.hit(what, inp, detail, tags)
+        else:
+            ctx.count("further-failing-inputs:" + tags[0])
+
     # ---- leaf correspondence ------------------------------------------------------------------
     def correspond(self, ctx):
+        self._hits_by_tag = {}
         drv = Driver("c08driver", "Earverif.Driver.C08")
         rng = ctx.rng
         q = ctx.quick
@@ -392,6 +448,10 @@ class C08(Spec):
         self._corr_codec(ctx, drv, rng, 40 if q else 600, 12 if q else 150)
         self._corr_handlers(ctx, drv, rng, 300 if q else 6000)
         self._corr_handlers2(ctx, drv, rng, 150 if q else 3000)
+        t4 = time.time()
+        self._corr_handlers4(ctx, drv, rng, 40 if q else 1500)
+        self._corr_classes(ctx, drv, rng, 8 if q else 150, 2 if q else 4)
+        ctx.notes.append("correspondence seconds: round-4 handlers + class level %.1f" % (time.time() - t4))
         ctx.notes.append("correspondence seconds: times %.1f, ids %.1f, chna %.1f, combinators %.1f (started %.1f s "
                          "after check start)" % (t1 - t0, t2 - t1, t3 - t2, time.time() - t3, t0 - ctx.t0))
 
@@ -694,7 +754,7 @@ class C08(Spec):
                 if not inside:
                     ctx.count("excluded-point:handler:invalid-screenEdgeLock=" + ("refused" if back == "E" else "accepted"))
             if inside and back != expect:
-                ctx.hit("hand-written handler does not round-trip", {"handler": which, "value": repr(value)},
+                self._hit_capped(ctx, "hand-written handler does not round-trip", {"handler": which, "value": repr(value)},
                         {"written": repr(want)[:600], "read_back": back, "expected": expect}, ["c08-handler-roundtrip-" + which])
         trees = codec.gen_handler_trees(rng, n)
         lines = []
@@ -739,7 +799,7 @@ class C08(Spec):
                 continue
             back = codec.py2_parse(exp[0], want)
             if back != exp[1]:
-                ctx.hit("hand-written handler does not round-trip", {"handler": which, "value": repr(value)},
+                self._hit_capped(ctx, "hand-written handler does not round-trip", {"handler": which, "value": repr(value)},
                         {"written": repr(want)[:600], "read_back": repr(back), "expected": repr(exp[1])},
                         ["c08-handler-roundtrip-" + which])
         trees = codec.gen_trees2(rng, n)
@@ -760,6 +820,119 @@ class C08(Spec):
                 ctx.disagree("%s parse vs Earverif.XmlCustom" % which, repr(t)[:600], m, repr(want))
             else:
                 ctx.validated()
+
+    def _corr_handlers4(self, ctx, drv, rng, n):
+        """round 4: positionOffset, reference screen, gain / position interaction ranges, Matrix coefficient and the
+        matrix element — real functions vs Earverif.XmlCustom / XmlBlocks, both directions, plus the direct predicate
+        (the value comes back from what was written) on the real code inside the stated domain"""
+        K = classes
+        vals = K.gen_values4(rng, n)
+        outs = drv.run([K.value4_line(w, v) for w, v in vals])
+        for (which, value), m in zip(vals, outs):
+            try:
+                want = K.py4_to_xml(which, value)
+            except Exception as e:
+                want = "raises %s" % type(e).__name__
+            try:
+                got, _ = codec.parse_tree_tokens(m.split())
+            except Exception:
+                got = m
+            ctx.count("corr:handler:%s:to_xml" % which)
+            ctx.case(("hx", which, repr(value)), True, sample={"handler": which, "value": repr(value), "xml": repr(want)[:300]})
+            if got != want:
+                ctx.disagree("%s to_xml vs Earverif.XmlCustom / XmlBlocks" % which, repr(value), repr(got)[:600], repr(want)[:600])
+                continue
+            ctx.validated()
+            exp = K.expected4(which, value)
+            if exp is None:
+                if which in ("poff", "grange", "prange"):
+                    back = K.py4_parse({"poff": "poff", "grange": "grange2", "prange": "prange"}[which], want)
+                    ctx.count("excluded-point:handler:%s-writes-nothing=%s" % (
+                        {"poff": "all-zero-positionOffset", "grange": "empty-gainInteractionRange",
+                         "prange": "empty-positionInteractionRange"}[which], "lost" if back == "~" else repr(back)))
+                continue
+            back = K.py4_parse(exp[0], want)
+            if back != exp[1]:
+                self._hit_capped(ctx, "hand-written handler does not round-trip", {"handler": which, "value": repr(value)},
+                        {"written": repr(want)[:600], "read_back": repr(back), "expected": repr(exp[1])},
+                        ["c08-handler-roundtrip-" + which])
+        trees = K.gen_trees4(rng, n)
+        outs = drv.run(["hp %s %s" % (which, " ".join(codec.tree_tokens(t))) for which, t in trees])
+        for (which, t), m in zip(trees, outs):
+            want = K.py4_parse(which, t)
+            ctx.count("corr:handler:%s:parse:%s" % (which, "rejected" if want == "E" else "value"))
+            ctx.case(("hp", which, repr(t[4])), want != "E")
+            if not K.matches4(which, m, want):
+                ctx.disagree("%s parse vs Earverif.XmlCustom / XmlBlocks" % which, repr(t)[:800], m, repr(want))
+            else:
+                ctx.validated()
+
+    def _corr_classes(self, ctx, drv, rng, n_docs, n_mut):
+        """class level (`rt`): for every element of generated documents (main elements, and their block formats /
+        loudnessMetadata / interaction / alternativeValueSet / reference screen on their own), and for randomly
+        edited copies of those trees, the real `parse` + constructor + `to_xml` of the element's class vs the model's
+        concrete parser with every hand-written handler concrete, on the same abstract tree.  References are
+        replaced by stand-ins carrying the id (reference resolution is outside the model)."""
+        import lxml.etree as ET
+        from ear.fileio.adm import xml as X
+        from ear.fileio.adm.elements.version import BS2076Version
+
+        K = classes
+        table = {nm: (p, parser_rows(p)) for nm, p in real_parsers()}
+        cases = []
+        for i in range(n_docs):
+            version = 1 + (i % 2)
+            adm, _ = docs.make_doc(rng.randrange(10 ** 9), version, rng.choice([1, 2, 3]))
+            h = X.MainElementHandler(BS2076Version(version))
+            for me in h.main_elements:
+                for el in me.get_func(adm):
+                    if el.is_common_definition:
+                        continue
+                    nm = "v%d/%s" % (version, me.name)
+                    with warnings.catch_warnings():
+                        warnings.simplefilter("ignore")
+                        tree = codec.from_lxml(table[nm][0].to_xml(ET.Element("parent"), el))
+                    cases.append((nm, tree, "written"))
+                    for c in tree[4]:
+                        sub = {"loudnessMetadata": "v%d/loudnessMetadata" % version,
+                               "audioObjectInteraction": "v%d/audioObjectInteraction" % version,
+                               "alternativeValueSet": "v%d/alternativeValueSet" % version,
+                               "audioProgrammeReferenceScreen": "audioProgrammeReferenceScreen"}.get(c[1])
+                        if c[1] == "audioBlockFormat":
+                            sub = "v%d/audioBlockFormat:%s" % (version, el.type.name)
+                        if sub is not None:
+                            cases.append((sub, c, "written"))
+        for nm, tree, _ in list(cases):
+            for _ in range(n_mut):
+                t = tree
+                for _ in range(rng.choice([1, 1, 2, 3])):
+                    t = K.mutate(rng, t)
+                cases.append((nm, t, "edited"))
+        outs = drv.run([K.rt_line(nm, t) for nm, t, _ in cases])
+        for (nm, t, kind), m in zip(cases, outs):
+            want = K.py_rt(table, nm, t)
+            try:
+                got, _ = codec.parse_tree_tokens(m.split())
+            except Exception:
+                got = m
+            cls = nm.split("/")[-1]
+            ctx.count("corr:class:%s:%s:%s" % (kind, cls, "rejected" if want == "E" else
+                                              ("raises" if isinstance(want, str) else "regenerated")))
+            ctx.case(("rt", nm, repr(t)), not isinstance(want, str),
+                     sample={"class": nm, "tree": repr(t)[:300]} if kind == "written" and len(t[4]) > 3 else None)
+            if got != want:
+                if K.has_db(t):
+                    ctx.count("outside-model:gainUnit-dB(off-grid-gain)")
+                    continue
+                ctx.disagree("%s: parse + to_xml of the element vs the model's concrete parser" % nm,
+                             {"class": nm, "kind": kind, "tree": repr(t)[:1500]}, repr(got)[:1500], repr(want)[:1500])
+                continue
+            ctx.validated()
+            # direct predicate on the real code (property (b) at element level): what the element's own to_xml wrote is a
+            # fixed point of parse + to_xml
+            if kind == "written" and want != t:
+                self._hit_capped(ctx, "element is not a fixed point of its own parser / generator", {"class": nm, "tree": repr(t)[:3000]},
+                        {"regenerated": repr(want)[:3000]}, ["c08-element-fixed-point-" + cls])
 
     # ---- search: documents through the real pipeline -------------------------------------------
     def search(self, ctx, deep):
@@ -806,13 +979,13 @@ class C08(Spec):
         from ear.fileio.adm.elements import (AudioBlockFormatObjects, JumpPosition, ObjectPolarPosition,
                                              PolarPositionOffset, InteractionRange, AudioObjectInteraction)
 
-        def run(name, mutate):
+        def run(name, mutate, version=2):
             try:
-                adm, _ = docs.make_doc(12345, 2, 1)
+                adm, _ = docs.make_doc(12345, version, 1)
                 mutate(adm)
                 with warnings.catch_warnings():
                     warnings.simplefilter("ignore")
-                    fails = docs.predicate(adm, 2)
+                    fails = docs.predicate(adm, version)
                 outcome = "round-trips" if not fails else ",".join(sorted({t for t, _ in fails}))
             except Exception as e:
                 outcome = "raises-" + type(e).__name__
@@ -847,10 +1020,47 @@ class C08(Spec):
             cf.audioBlockFormats[0].rtime = None
             cf.audioBlockFormats[0].duration = Fraction(1)
 
+        def empty_pos_range(adm):
+            from ear.fileio.adm.elements import CartesianPositionInteractionRange
+            adm.audioObjects[0].audioObjectInteraction = AudioObjectInteraction(
+                onOffInteract=True, positionInteractionRange=CartesianPositionInteractionRange())
+
+        def no_blocks(adm):
+            cf = [c for c in adm.audioChannelFormats if not c.is_common_definition][0]
+            cf.audioBlockFormats[:] = []
+
+        def coeff_without_input(adm):
+            from ear.fileio.adm.elements import AudioBlockFormatMatrix, MatrixCoefficient, TypeDefinition
+            cf = [c for c in adm.audioChannelFormats if not c.is_common_definition][0]
+            cf.type = TypeDefinition.Matrix
+            cf.audioBlockFormats[:] = [AudioBlockFormatMatrix(matrix=[MatrixCoefficient(gain=0.5)])]
+            from ear.fileio.adm.generate_ids import generate_ids
+            generate_ids(adm)
+
+        def v1_object_gain(adm):
+            adm.audioObjects[0].gain = 0.5
+
+        def v1_block_importance(adm):
+            from ear.fileio.adm.elements import AudioBlockFormatBinaural, TypeDefinition
+            cf = [c for c in adm.audioChannelFormats if not c.is_common_definition][0]
+            cf.type = TypeDefinition.Binaural
+            cf.audioBlockFormats[:] = [AudioBlockFormatBinaural(importance=5)]
+            from ear.fileio.adm.generate_ids import generate_ids
+            generate_ids(adm)
+
+        def v1_trackuid_channel(adm):
+            adm.audioTrackUIDs[0].audioChannelFormat = adm.audioChannelFormats[0]
+
         for name, fn in [("jumpPosition-flag-false-with-interpolationLength", jp), ("all-zero-positionOffset", zero_offset),
-                         ("empty-gainInteractionRange", empty_range), ("referenceScreen-None", no_screen),
-                         ("duplicate-encodePackFormats", dup_encode), ("duration-without-rtime", duration_only)]:
+                         ("empty-gainInteractionRange", empty_range), ("empty-positionInteractionRange", empty_pos_range),
+                         ("referenceScreen-None", no_screen),
+                         ("duplicate-encodePackFormats", dup_encode), ("duration-without-rtime", duration_only),
+                         ("channelFormat-without-blockFormats", no_blocks),
+                         ("matrix-coefficient-without-inputChannelFormat", coeff_without_input)]:
             run(name, fn)
+        for name, fn in [("v1-audioObject-gain", v1_object_gain), ("v1-block-importance", v1_block_importance),
+                         ("v1-audioTrackUID-audioChannelFormat", v1_trackuid_channel)]:
+            run(name, fn, 1)
 
 
 SPEC = C08()
@@ -863,33 +1073,41 @@ REGISTRY = dict(
     "time_unparse_parse — string fixed point on the image of unparse_time); (2) ID generation (ids_injective for all "
     "element counts; ids_wellformed under explicit bounds with ids_wellformed_bound_sharp: the 61 440th object gets "
     "AO_10000; ids_not_reserved; ids_disjoint_from_common) and the 40-byte CHNA row (chna_entry_roundtrip); "
-    "(3) the declarative XML combinator layer: Earverif.XmlCodec.codec_roundtrip — for any property table made of "
-    "Attribute/AttrElement/ListElement/HandleText/TypeAttribute entries plus hand-written handlers as framed "
-    "parameters, if the field codecs round-trip on the values carried, keys and arguments are pairwise distinct and "
-    "defaults are elided symmetrically, then ElementParser.parse(to_xml(obj)) gives every declarative argument back "
-    "(codec_roundtrip_pure: the object itself and the same tree again for purely declarative parsers; "
-    "toXml_decl_congr: the declarative output is a fixed point) — instantiated with the handler tables REGENERATED "
-    "from the real MainElementHandler for BS.2076-1 and -2 on every run (handlers_wellformed by decide; "
-    "handlers_codec_roundtrip / handlers_roundtrip_values / handlers_codec_roundtrip_pure for all 36 parsers), with "
-    "exact leaf codecs (int, bool, string/ref, track-UID ref, time, five-decimal floats, typeDefinition/typeLabel "
-    "enums) proved to round-trip; (4) three hand-written handlers modelled exactly: frequency_roundtrip, "
-    "jumpPosition_roundtrip (+ jumpPosition_excluded: flag unset loses interpolationLength), "
-    "speakerPosition_roundtrip (DirectSpeakers position with min/max bounds, screenEdgeLock, elided default "
-    "distance). C08_partial is the conjunction of the leaf claims. NOT proved, only searched: the other hand-written "
-    "handlers (parameters; listed in the evidence), five-decimal printing of arbitrary doubles, lxml, reference "
-    "resolution, populate_chna_chunk/load_chna_chunk — covered by generated documents over every element class and "
-    "optional attribute for both versions run through the real write/read pipeline (equivalence, byte fixed point, "
-    "CHNA transfer, ID checks).",
+    "(3) the XML layer on an abstract tree: Earverif.XmlCodec.codec_roundtrip / codec_roundtrip_full for the "
+    "declarative combinators (Attribute/AttrElement/ListElement/HandleText/TypeAttribute + hand-written handlers as "
+    "specified parameters), instantiated with the handler tables REGENERATED from the real MainElementHandler on "
+    "every run (handlers_wellformed by decide); every hand-written handler pair of xml.py modelled exactly with its own "
+    "round-trip theorem and its excluded points as theorems (frequency, jumpPosition, DirectSpeakers and Objects "
+    "position, gain element / optional gain / gain attribute, channelLock, objectDivergence, zoneExclusion, "
+    "positionOffset, screenCentrePosition / screenWidth, gain and position interaction ranges, Matrix coefficient and "
+    "matrix element); class-level theorems parse(to_xml(e)) = e and second generation = same tree, under explicit "
+    "Valid predicates with non-vacuity examples, for BS.2076-1 and -2: objectsBlock_roundtrip, "
+    "directSpeakersBlock_roundtrip, hoaBlock_roundtrip, binauralBlock_roundtrip, matrixBlock_roundtrip, "
+    "coeff_roundtrip, loudness_roundtrip, screen_roundtrip, interaction_roundtrip, avs_roundtrip, programme_roundtrip, "
+    "content_roundtrip, object_roundtrip, packFormat_roundtrip, channelFormat_roundtrip (block formats dispatched by "
+    "typeDefinition), streamFormat_roundtrip, trackFormat_roundtrip, trackUID_roundtrip — each tied to the regenerated "
+    "table by a *Rows_eq obligation (decide +kernel) and a *Props_eq theorem; Earverif.C08.C08_roundtrip_model: every "
+    "main element of a DocValid document round-trips through the parser the regenerated table declares for its "
+    "class. C08_partial is the conjunction. NOT proved, only searched: five-decimal printing / reading of arbitrary "
+    "doubles, lxml (no byte level in the model), reference resolution and duplicate-id rejection in adm.py, "
+    "populate_chna_chunk/load_chna_chunk — covered by generated documents over every element class and optional "
+    "attribute for both versions run through the real write/read pipeline (equivalence, byte fixed point, CHNA "
+    "transfer, ID checks).",
     note="Trusted: Lean kernel; hand transliterations of time_format / generate_ids / CHNA row codec / xml.py "
-    "combinators / three handlers + correspondence harness (real ElementParser.parse/to_xml and real handler "
-    "functions vs the Lean driver on synthetic trees and on trees written for generated documents); the table "
-    "extractor; Python Fraction/Decimal/str.format/struct semantics. Quantifier limits: t < 100 h, ASCII digits, "
-    "<= 0xEFFF elements per top-level kind, <= 0xFF track formats per stream, printable-grid values; degenerate "
-    "composite defaults (all-zero positionOffset, empty interaction range, jumpPosition flag false with "
-    "interpolationLength, referenceScreen None) are recorded as excluded points, not asserted.",
+    "(combinators, all handler pairs, element classes) + correspondence harness (real ElementParser.parse/to_xml, real "
+    "handler functions and whole-element parse+to_xml vs the Lean driver on synthetic trees, on trees written for "
+    "generated documents and on randomly edited copies); the table extractor; Python "
+    "Fraction/Decimal/str.format/struct semantics. Quantifier limits: t < 100 h, ASCII digits, <= 0xEFFF elements per "
+    "top-level kind, <= 0xFF track formats per stream, printable-grid values; degenerate composite values (all-zero "
+    "positionOffset, empty interaction ranges, jumpPosition flag false with interpolationLength, referenceScreen "
+    "None, channel format without block formats, coefficient without input channel, BS.2076-2 features in a "
+    "BS.2076-1 document) are stated as hypotheses / excluded-point theorems and recorded from the real code on "
+    "every run, not asserted.",
     technique="Lean 4 proofs about codec models (long-division decimal expansion, injective min-width hex formatter, "
-    "byte layout, dictionary-of-handlers parser with loop invariants, regenerated tables decided by the kernel) + "
-    "differential correspondence with the real functions + generated-document search on the real AXML/CHNA pipeline",
+    "byte layout, dictionary-of-handlers parser with loop invariants, generic handler shapes (single / list / xpath) "
+    "with framed specifications, nested parsers composed through class constructors, regenerated tables decided by "
+    "the kernel) + differential correspondence with the real functions + generated-document search on the real "
+    "AXML/CHNA pipeline",
     design_ref="DESIGN.md section 4, C08",
 )
 
